@@ -243,7 +243,8 @@ def unpivot(fields, rows, unpivot_fields, extra_keys, extra_value, regex=True):
     out_rows = []
     for r in rows:
         for name, keys in plan:
-            nr = dict(keys)
+            nr = {k['name']: None for k in extra_keys}      # every declared key field; null where the entry gives none
+            nr.update(keys)
             for k in kept:
                 nr[k] = r[k]
             nr[extra_value['name']] = r.get(name)
